@@ -134,22 +134,11 @@ def check(ctx):
             ok = is_empty_weights_path(p) and len(p.conds) == 1
             ctx.require(ok, 'C11.S2', 'an empty target is returned only for an empty weight dict', ctx.fn(CN + '.__call__').site(), cond_str(p)[:120], key='C11.S2|empty-only')
     # ---- S3 leverage guard
-    fn = ctx.fn(CN + '._check_set_gross_leverage')
-    for val_, valid in ((-1, False), (0, False), (0.5, True), (1, True), (3, True)):
-        v = Valuation(nums={'gross_leverage': val_})
-        ps = summarise(ctx, fn, policy=default_policy, oracle=v)
-        outs = {('raise:' + p.state.exc[1]) if p.outcome == 'raise' else ('ok:' + fmt(p.value)) for p in ps}
-        want = {'ok:gross_leverage'} if valid else {'raise:ValueError'}
-        ctx.require(outs == want, 'C11.S3', 'a gross leverage of %s is %s' % (val_, 'accepted unchanged' if valid else 'rejected with ValueError'), fn.site(), sorted(outs),
-                    key='C11.S3|leverage|%s' % val_)
+    from .sizers import ctor_guard_table
+    ctor_guard_table(ctx, 'C11.S3', CN, 'gross_leverage', 'gross_leverage', ((-1, False), (0, False), (0.5, True), (1, True), (3, True)), 'a gross leverage', 'C11.S3|leverage')
     from . import c05, c06, c08
     ctx.sub(c05.s4_fee_models)
     ctx.sub(c08.sizer_selection)       # the sizer is built with the caller's leverage, unmodified
     ctx.sub(c06.converter)             # an unavailable price stays NaN (no back-fill), so it can be rejected
-    ps = summarise(ctx, CN + '.__init__', policy=no_inline)
-    for p in normal(ps):
-        w = heap_writes(p, 'gross_leverage')
-        ok = len(w) == 1 and w[0].value[0] == 'call' and w[0].value[1] == ('fn', CN + '._check_set_gross_leverage') and w[0].value[2][1:] == (V('gross_leverage'),)
-        ctx.require(ok, 'C11.S3', 'the leverage stored is the validated one', w[0].site if w else None, key='C11.S3|validated')
     ws = [w for w in writers_of_attr(ctx.M, 'gross_leverage', owner=CN) if w.fn.cls is not None and w.fn.cls.name == CN]
     ctx.require(all(w.fn.name == '__init__' for w in ws) and ws, 'C11.S3', 'the leverage is set only by the constructor', ws[0].where if ws else None, key='C11.S3|writer')
